@@ -75,9 +75,14 @@ func spyVAAPayload(e int, seq int64, payload []byte) []byte {
 	em := spyEmitters[e%len(spyEmitters)]
 	v := &ref.VAA{Version: 1, SetIndex: 0, Body: ref.Body{TimestampSec: 1_700_000_000, Nonce: uint32(seq), EmitterChain: em.chain, TargetChain: 255, Emitter: em.addr,
 		Sequence: uint64(seq), Consistency: 1, Payload: payload}}
-	var s ref.Sig
-	s.Sig[0] = byte(seq)
-	v.Sigs = []ref.Sig{s}
+	// 1 to 13 signatures (the quorum of sets of up to 19 guardians), depending on the sequence number
+	n := 1 + int(uint64(seq)%13)
+	for i := 0; i < n; i++ {
+		var s ref.Sig
+		s.Index = uint8(i)
+		s.Sig[0], s.Sig[1] = byte(seq), byte(i)
+		v.Sigs = append(v.Sigs, s)
+	}
 	return ref.Encode(v)
 }
 
@@ -338,8 +343,16 @@ func (h spyHarness) Exec(p *simkit.Program) *simkit.Result {
 					x.filters = append(x.filters, x.filters[0]) // duplicate filter
 				}
 				for _, f := range x.filters {
+					// clients write the address in lower-case, upper-case or mixed-case hex
+					hx := hex.EncodeToString(f.addr[:])
+					switch x.id % 3 {
+					case 1:
+						hx = strings.ToUpper(hx)
+					case 2:
+						hx = strings.ToUpper(hx[:2]) + hx[2:]
+					}
 					req.Filters = append(req.Filters, &spyv1.FilterEntry{Filter: &spyv1.FilterEntry_EmitterFilter{EmitterFilter: &spyv1.EmitterFilter{
-						ChainId: spyv1ChainID(f.chain), EmitterAddress: hex.EncodeToString(f.addr[:])}}})
+						ChainId: spyv1ChainID(f.chain), EmitterAddress: hx}}})
 				}
 				if st.A&32 != 0 && mask != 0 {
 					// a filter that matches nothing published (right address, other chain)
